@@ -1,5 +1,5 @@
 (* The empty completed definitions `theory_translate` appends for the output predicates of the user
-   guide that do not occur in the completed theory (/repo <COMMIT-F17>, finding F17;
+   guide that do not occur in the completed theory (/repo 70e6ace, finding F17;
    Model/External.v: empty_definition, missing_output_definitions).
 
      empty_definition_valid        forall V (q(V) <-> #false)  is valid in M  iff  M is empty on q
